@@ -303,6 +303,8 @@ impl FixtureDatabase {
             );
 
             let mut new_modules: HashSet<std::path::PathBuf> = HashSet::new();
+            // Files walked earlier that were marked as plugin files in this iteration
+            let mut rewalk: HashSet<std::path::PathBuf> = HashSet::new();
 
             for file_path in &files_to_check {
                 if processed_files.contains(file_path) {
@@ -353,6 +355,13 @@ impl FixtureDatabase {
                                 if self.file_cache.contains_key(&canonical) {
                                     reanalyze_as_plugin.insert(canonical.clone());
                                 }
+                                // If its imports were already walked (before it
+                                // became a plugin file), walk them again so that
+                                // plugin status reaches what it imports in turn,
+                                // whatever order the files are visited in.
+                                if processed_files.remove(&canonical) {
+                                    rewalk.insert(canonical.clone());
+                                }
                             }
 
                             if !processed_files.contains(&canonical)
@@ -384,6 +393,10 @@ impl FixtureDatabase {
                                 if self.file_cache.contains_key(&canonical) {
                                     reanalyze_as_plugin.insert(canonical.clone());
                                 }
+                                // Walked before it became a plugin file: see above.
+                                if processed_files.remove(&canonical) {
+                                    rewalk.insert(canonical.clone());
+                                }
                             }
 
                             if !processed_files.contains(&canonical)
@@ -396,7 +409,7 @@ impl FixtureDatabase {
                 }
             }
 
-            if new_modules.is_empty() {
+            if new_modules.is_empty() && rewalk.is_empty() {
                 debug!("No new modules found in iteration {}", iteration);
                 break;
             }
@@ -423,7 +436,7 @@ impl FixtureDatabase {
             }
 
             // Next iteration will check the newly analyzed modules for their imports
-            files_to_check = new_modules.into_iter().collect();
+            files_to_check = new_modules.into_iter().chain(rewalk).collect();
         }
 
         // Re-analyze modules that were already cached but newly marked as
